@@ -61,9 +61,6 @@ Definition h2b_rev (s : bytes) : outcome bytes := do b <- h2b s; Ret (rev b).
 (* ---- Streamer ---------------------------------------------------------------------------------- *)
 Inductive sval := VInt (z : Z) | VBytes (b : bytes) | VBool (b : bool).
 
-Fixpoint chars (s : String.string) : list ascii :=
-  match s with String.EmptyString => [] | String.String c r => c :: chars r end.
-
 Fixpoint codec_of (t : list (ascii * codec_kind)) (c : ascii) : option codec_kind :=
   match t with
   | [] => None
@@ -139,22 +136,22 @@ Fixpoint stream_struct (fmt : list ascii) (args : list sval) : outcome bytes :=
 
 (* ---- TxIn / TxOut -------------------------------------------------------------------------------- *)
 Definition stream_txin (blank_solutions : bool) (i : txin) : outcome bytes :=
-  stream_struct (chars txin_stream_fmt)
+  stream_struct txin_stream_fmt
     [VBytes (ti_hash i); VInt (ti_index i); VBytes (if blank_solutions then [] else ti_script i); VInt (ti_sequence i)].
 
 (* cls(STAR parse_struct("#LSL", f)): the witness of a fresh TxIn is [] *)
 Definition parse_txin : parser txin := fun s =>
-  do '(vals, r) <- parse_struct (chars txin_parse_fmt) s;
+  do '(vals, r) <- parse_struct txin_parse_fmt s;
   match vals with
   | [VBytes h; VInt i; VBytes sc; VInt q] => Ret (mk_txin h i sc q [], r)
   | _ => Raise E_TYPE
   end.
 
 Definition stream_txout (o : txout) : outcome bytes :=
-  stream_struct (chars txout_stream_fmt) [VInt (to_value o); VBytes (to_script o)].
+  stream_struct txout_stream_fmt [VInt (to_value o); VBytes (to_script o)].
 
 Definition parse_txout : parser txout := fun s =>
-  do '(vals, r) <- parse_struct (chars txout_parse_fmt) s;
+  do '(vals, r) <- parse_struct txout_parse_fmt s;
   match vals with
   | [VInt v; VBytes sc] => Ret (mk_txout v sc, r)
   | _ => Raise E_TYPE
@@ -176,9 +173,9 @@ Definition has_witness_data (t : tx) : bool :=
   existsb (fun i => match ti_witness i with [] => false | _ => true end) (tx_ins t).
 
 Definition stream_count (n : nat) : outcome bytes :=
-  stream_struct (chars tx_count_fmt) [VInt (Z.of_nat n)].
+  stream_struct tx_count_fmt [VInt (Z.of_nat n)].
 Definition stream_word (z : Z) : outcome bytes :=
-  stream_struct (chars tx_word_fmt) [VInt z].
+  stream_struct tx_word_fmt [VInt z].
 
 Definition stream_witness (i : txin) : outcome bytes :=
   do c <- stream_count (length (ti_witness i));
@@ -246,7 +243,7 @@ Definition parse_satoshi_int (v : option N) : parser N := fun s =>
   match v with None => parse_varint s | Some v => parse_varint_tail v s end.
 
 Definition parse_word : parser Z := fun s =>
-  do '(vals, r) <- parse_struct (chars tx_word_fmt) s;
+  do '(vals, r) <- parse_struct tx_word_fmt s;
   match vals with [VInt v] => Ret (v, r) | _ => Raise E_VALUE end.   (* `(version,) = ...` *)
 
 (* for tx_in in txs_in: stack = [parse_satoshi_string(f) for range(parse_satoshi_int(f))]; tx_in.witness = stack *)
@@ -364,7 +361,7 @@ End Hash.
 Definition stream_spendable (as_spendable : bool) (sp : spendable) : outcome bytes :=
   do a <- stream_txout (mk_txout (sp_value sp) (sp_script sp));
   if as_spendable then
-    do b <- stream_struct (chars spendable_stream_fmt)
+    do b <- stream_struct spendable_stream_fmt
               [VBytes (sp_tx_hash sp); VInt (sp_index sp); VInt (sp_block_index_available sp);
                VBool (negb (sp_does_seem_spent sp =? 0)%Z); VInt (sp_block_index_spent sp)];
     Ret (a ++ b)
@@ -372,7 +369,7 @@ Definition stream_spendable (as_spendable : bool) (sp : spendable) : outcome byt
 
 (* cls(STAR parse_struct("QS#LIbI", f)); __init__ stores int(does_seem_spent) *)
 Definition parse_spendable : parser spendable := fun s =>
-  do '(vals, r) <- parse_struct (chars spendable_parse_fmt) s;
+  do '(vals, r) <- parse_struct spendable_parse_fmt s;
   match vals with
   | [VInt v; VBytes sc; VBytes h; VInt i; VInt bia; VBool d; VInt bis] =>
     Ret (mk_spendable v sc h i bia (if d then 1 else 0)%Z bis, r)
